@@ -83,6 +83,54 @@ enum E3 {
 }
 dbus_variant_sig!(MD, CaseW => VMS);
 
+/// variants whose signature holds MORE than one complete type (the first of them a case of the enums), or none: not a valid
+/// variant - every generated decoder reports an error like the generic variant decoder, whatever follows
+fn enum_multi_type_signature(out: &mut Out) {
+    for bo in ORDERS {
+        let u = |v: u32| if bo == ByteOrder::LittleEndian { v.to_le_bytes() } else { v.to_be_bytes() };
+        // (signature bytes of the variant, value bytes from a 4-aligned offset)
+        let mut cases: Vec<(&str, Vec<u8>)> = Vec::new();
+        cases.push(("us", [&u(7)[..], &u(2)[..], b"hi\0"].concat()));
+        cases.push(("uu", [u(7), u(8)].concat()));
+        cases.push(("su", [&u(2)[..], b"hi\0\0", &u(9)[..]].concat()));
+        cases.push(("(yt)u", [&[1u8, 0, 0, 0, 0, 0, 0, 0][..], &[0u8; 8][..], &u(3)[..]].concat()));
+        cases.push(("", Vec::new()));
+        for (sig, value) in cases {
+            let mut buf = vec![sig.len() as u8];
+            buf.extend_from_slice(sig.as_bytes());
+            buf.push(0);
+            let align = if sig.starts_with('(') { 8 } else { 4 };
+            while buf.len() % align != 0 {
+                buf.push(0);
+            }
+            buf.extend_from_slice(&value);
+            buf.push(0x5A);
+            let generic = decode_at::<rustbus::wire::unmarshal::traits::Variant>(&buf, bo, 0).is_ok();
+            if generic {
+                out.violation("multi-type-variant", &format!("the generic variant decoder accepted a variant with signature {:?}", sig));
+            }
+            for (kind, cases_txt, name) in [("derive", "u,(st),(yaq)", "derived enum E1"), ("catchall", "u,s,(yt),at", "dbus_variant_sig enum"), ("catchall", "u,s,(yt)", "dbus_variant_var enum")] {
+                let req = format!("c16.enum {} {} {} 0 {}", kind, bo_name(bo), cases_txt, hex(&buf));
+                let r = guard(|| match name {
+                    "derived enum E1" => decode_at::<E1>(&buf, bo, 0).map(|x| format!("{:?}", x.0)),
+                    "dbus_variant_sig enum" => decode_at::<MS>(&buf, bo, 0).map(|x| format!("{:?}", x.0)),
+                    _ => decode_at::<MV>(&buf, bo, 0).map(|x| format!("{:?}", x.0)),
+                });
+                let obs = match &r {
+                    Ok(Ok(dbg)) => format!("accepted {}", dbg),
+                    Ok(Err(())) => "err".to_string(),
+                    Err(p) => format!("panic {}", p),
+                };
+                if obs != "err" {
+                    out.violation(&req, &format!("{}: a variant whose signature {:?} is not exactly one type was not refused: {}", name, sig, obs));
+                }
+                out.hit("enum_multi_type_signature");
+                out.case(&req, &obs, true);
+            }
+        }
+    }
+}
+
 /// enum cases whose signature is longer than 255 characters: every API must REFUSE to write such a variant (the length byte
 /// of a signature cannot say more than 255) - the derived enum like the typed wrapper and the Param API
 type LS1 = (u8, u8, u8, u8, u8);
@@ -732,6 +780,7 @@ pub fn run(cfg: &Cfg) {
     let _ = (ObjectPath::new("/").is_ok(), SignatureWrapper::new("").is_ok());
     enum_depth(&mut out);
     enum_long_signature(&mut out);
+    enum_multi_type_signature(&mut out);
     // the dynamic API against itself and the validator on hand-built Param trees: borrowed / owned string-likes at every
     // alignment phase, the deepest legal values (what the Param API writes, the validator accepts and the Param API reads
     // back as the same value), ill-typed trees refused
